@@ -171,7 +171,14 @@ pub fn build_pool(seed: u64, n: usize, tag: &str) -> Result<Pool, String> {
         let values = values_from_bytes(&out[128..])?;
         let want = expected_values(&r, &model);
         if values != want {
-            return Err(format!("pool: published values differ from the formulas for {r:?} (see C04/C01)"));
+            // a message whose x is not the Keccak hash of its signal while everything else is as the
+            // formulas say stays in the pool: whether a verifier may accept it is exactly what the
+            // properties using the pool decide (with the reference hash); anything else is an oracle
+            // problem and stops the run as inconclusive
+            let x_only = values.x != want.x && values.root == want.root && values.e == want.e && values.nullifier == want.nullifier;
+            if !x_only {
+                return Err(format!("pool: published values differ from the formulas for {r:?} (see C04/C01)"));
+            }
         }
         msgs.push(Golden { signal: r.signal.expand(), req: r, msg: out, values });
     }
